@@ -4347,6 +4347,7 @@ static WBXMLError xml_fill_header(WBXMLEncoder *encoder, WBXMLBuffer *header)
 static WBXMLError xml_encode_tag(WBXMLEncoder *encoder, WBXMLTreeNode *node)
 {
     const WB_TINY *ns = NULL;
+    WBXMLTreeNode *anc = NULL;
     WB_ULONG i;
 
     /* Set as current Tag */
@@ -4371,15 +4372,18 @@ static WBXMLError xml_encode_tag(WBXMLEncoder *encoder, WBXMLTreeNode *node)
     if (!wbxml_buffer_append_cstr(encoder->output, wbxml_tag_get_xml_name(node->name)))
         return WBXML_ERROR_ENCODER_APPEND_DATA;
 
-    /* NameSpace handling: Check if Current Node Code Page is different than Parent Node Code Page */
+    /* NameSpace handling: Check if Current Node Code Page is different than the Code Page of the
+     * nearest ancestor that has one (a literal element has no code page and declares no namespace,
+     * so the namespace in scope below it is still the one of the last token element above) */
+    anc = node->parent;
+    while ((anc != NULL) &&
+           !((anc->type == WBXML_TREE_ELEMENT_NODE) && (anc->name->type == WBXML_VALUE_TOKEN)))
+        anc = anc->parent;
+
     if ((encoder->lang->nsTable != NULL) &&
         (node->name->type == WBXML_VALUE_TOKEN) && /* a literal name has no code page (u.token is not valid for it) */
-        ((node->parent == NULL) ||
-         ((node->parent->type == WBXML_TREE_ELEMENT_NODE) &&
-          (node->parent->name->type == WBXML_VALUE_TOKEN) &&
-          (node->type == WBXML_TREE_ELEMENT_NODE) &&
-          (node->name->type == WBXML_VALUE_TOKEN) &&
-          (node->parent->name->u.token->wbxmlCodePage != node->name->u.token->wbxmlCodePage))))
+        ((anc == NULL) ||
+         (anc->name->u.token->wbxmlCodePage != node->name->u.token->wbxmlCodePage)))
     {
         if ((ns = wbxml_tables_get_xmlns(encoder->lang->nsTable, node->name->u.token->wbxmlCodePage)) != NULL)
         {
